@@ -1,6 +1,9 @@
 package convert
 
 import (
+	"math"
+	"time"
+
 	"github.com/aptpod/iscp-go/errors"
 	"github.com/aptpod/iscp-go/message"
 	autogen "github.com/aptpod/iscp-proto/gen/gogofast/iscp2/v1"
@@ -11,13 +14,21 @@ import (
 func WireToProto(in message.Message) (*autogen.Message, error) {
 	switch msg := in.(type) {
 	case *message.ConnectRequest:
+		pingInterval, err := toUint32Units(msg.PingInterval, time.Second)
+		if err != nil {
+			return nil, errorConvertToProto(msg, err)
+		}
+		pingTimeout, err := toUint32Units(msg.PingTimeout, time.Second)
+		if err != nil {
+			return nil, errorConvertToProto(msg, err)
+		}
 		return &autogen.Message{Message: &autogen.Message_ConnectRequest{
 			ConnectRequest: &autogen.ConnectRequest{
 				RequestId:       uint32(msg.RequestID),
 				ProtocolVersion: msg.ProtocolVersion,
 				NodeId:          msg.NodeID,
-				PingInterval:    uint32(msg.PingInterval.Seconds()),
-				PingTimeout:     uint32(msg.PingTimeout.Seconds()),
+				PingInterval:    pingInterval,
+				PingTimeout:     pingTimeout,
 				ExtensionFields: toConnectRequestExtensionFieldsProto(msg.ExtensionFields),
 			},
 		}}, nil
@@ -52,12 +63,20 @@ func WireToProto(in message.Message) (*autogen.Message, error) {
 		if err != nil {
 			return nil, errorConvertToProto(msg, err)
 		}
+		ackInterval, err := toUint32Units(msg.AckInterval, time.Millisecond)
+		if err != nil {
+			return nil, errorConvertToProto(msg, err)
+		}
+		expiryInterval, err := toUint32Units(msg.ExpiryInterval, time.Second)
+		if err != nil {
+			return nil, errorConvertToProto(msg, err)
+		}
 		return &autogen.Message{Message: &autogen.Message_UpstreamOpenRequest{
 			UpstreamOpenRequest: &autogen.UpstreamOpenRequest{
 				RequestId:       uint32(msg.RequestID),
 				SessionId:       msg.SessionID,
-				AckInterval:     uint32(msg.AckInterval.Milliseconds()),
-				ExpiryInterval:  uint32(msg.ExpiryInterval.Seconds()),
+				AckInterval:     ackInterval,
+				ExpiryInterval:  expiryInterval,
 				DataIds:         toDataIDsProto(msg.DataIDs),
 				Qos:             qos,
 				ExtensionFields: toUpstreamOpenRequestExtensionFieldsProto(msg.ExtensionFields),
@@ -130,12 +149,16 @@ func WireToProto(in message.Message) (*autogen.Message, error) {
 		if err != nil {
 			return nil, errorConvertToProto(msg, err)
 		}
+		expiryInterval, err := toUint32Units(msg.ExpiryInterval, time.Second)
+		if err != nil {
+			return nil, errorConvertToProto(msg, err)
+		}
 		return &autogen.Message{Message: &autogen.Message_DownstreamOpenRequest{
 			DownstreamOpenRequest: &autogen.DownstreamOpenRequest{
 				RequestId:            uint32(msg.RequestID),
 				DesiredStreamIdAlias: msg.DesiredStreamIDAlias,
 				DownstreamFilters:    toDownstreamFiltersProto(msg.DownstreamFilters),
-				ExpiryInterval:       uint32(msg.ExpiryInterval.Seconds()),
+				ExpiryInterval:       expiryInterval,
 				DataIdAliases:        toDataIDAliasesProto(msg.DataIDAliases),
 				Qos:                  qos,
 				ExtensionFields:      toDownstreamOpenRequestExtensionFieldsProto(msg.ExtensionFields),
@@ -1086,6 +1109,16 @@ func toDataIDOrAliasProto(in message.DataIDOrAlias, out *autogen.DataPointGroup)
 		return errors.Errorf("invalid DataIDOrAlias %v %T: %w", in, in, errors.ErrMalformedMessage)
 	}
 	return nil
+}
+
+// toUint32Units converts a duration to whole units of a uint32 wire field; a value the field cannot carry
+// (negative, or more than 2^32-1 units) is refused instead of wrapping around.
+func toUint32Units(d, unit time.Duration) (uint32, error) {
+	n := int64(d / unit)
+	if d < 0 || n > math.MaxUint32 {
+		return 0, errors.Errorf("duration %v does not fit the wire field (0..%d x %v): %w", d, uint32(math.MaxUint32), unit, errors.ErrMalformedMessage)
+	}
+	return uint32(n), nil
 }
 
 func errorConvertToProto(m message.Message, err error) error {
